@@ -136,6 +136,11 @@ where
     };
     let (mut layers, mut rem) = layer_values::<E>(&pr.proof);
     let real_folded = folded_all(&pos, n, folding, layers.len());
+    if layers.len() != sc["L"].as_u64().unwrap() as usize {
+        st.skipped += 1;
+        out.emit(&mismatch(i, "skip", json!({"why": "the real prover built another number of layers than the specification"})));
+        return;
+    }
     if sc["cls"].as_str() == Some("each") {
         // every revealed value changed, one substitution at a time; each must be rejected
         let qe: Vec<E> = pos.iter().map(|&p| evals[p]).collect();
@@ -387,7 +392,12 @@ pub fn main_toy(args: &[String]) -> i32 {
     let mut st = Stats::default();
     for (i, sc) in scenarios.iter().enumerate() {
         st.scenarios += 1;
-        by_field!(run_toy, sc, i, (i, sc, &mut st, &mut out));
+        // a panic of the engine itself (e.g. the real transcript has another shape than the
+        // specification's) must not kill the run: the scenario is reported as skipped
+        if let Err(p) = wfcommon::util::catch(|| by_field!(run_toy, sc, i, (i, sc, &mut st, &mut out))) {
+            st.skipped += 1;
+            out.emit(&mismatch(i, "skip", json!({"why": "engine panicked", "panic": p})));
+        }
     }
     summary(&st, &mut out);
     0
@@ -399,7 +409,10 @@ pub fn main_real(args: &[String]) -> i32 {
     let mut st = Stats::default();
     for (i, sc) in scenarios.iter().enumerate() {
         st.scenarios += 1;
-        by_real_field!(run_real, sc, (i, sc, &mut st, &mut out));
+        if let Err(p) = wfcommon::util::catch(|| by_real_field!(run_real, sc, (i, sc, &mut st, &mut out))) {
+            st.skipped += 1;
+            out.emit(&mismatch(i, "skip", json!({"why": "engine panicked", "panic": p})));
+        }
     }
     summary(&st, &mut out);
     0
